@@ -300,6 +300,9 @@ def cond_params(draw, kind, R, Dx, Dy, kappa=100.0, zero_M=False):
         p["W2"] = draw(arr((H, Dy * (Dx + 1)), -1.5, 1.5))
         p["b2"] = draw(arr((Dy * (Dx + 1),), -1, 1))
         p["u"] = draw(arr((R, Du), -2, 2))
+        # dtype regime: a single-precision control network (float32 weights and control input) next to float64 noise parameters;
+        # M(u), b(u) are then float32 NUMBERS (the oracle evaluates the same network in float32), everything else stays float64
+        p["f32_net"] = draw(st.sampled_from([False] * 4 + [True]))
         return p
     M = draw(arr((R, Dy, Dx), -1.5, 1.5))
     if zero_M:
@@ -323,6 +326,7 @@ def cond_params(draw, kind, R, Dx, Dy, kappa=100.0, zero_M=False):
             M = np.zeros_like(M)
             for i, c_ in enumerate(cols):
                 M[:, i, c_] = 1.0
+            p["M_int_dtype"] = draw(st.booleans())  # written the way users write a selection matrix: an integer array
         elif which == "M_symmetric" and Dx == Dy:
             M = 0.5 * (M + np.swapaxes(M, 1, 2))
         elif which == "M_identity_in_general_class" and Dx == Dy:
@@ -361,7 +365,13 @@ def cond_np(p):
         return np.tile(np.eye(D)[None], (R, 1, 1)), np.zeros((R, D)), Sig
     if kind == "nn":
         u = np.asarray(p["u"], float)
-        out = np.tanh(u @ np.asarray(p["W1"], float) + np.asarray(p["b1"], float)) @ np.asarray(p["W2"], float) + np.asarray(p["b2"], float)
+        if p.get("f32_net"):
+            import jax.numpy as jnp  # the user's network, evaluated exactly as the user's function does (float32 jax arithmetic)
+
+            f = lambda a: jnp.asarray(np.asarray(a, float), dtype=jnp.float32)
+            out = np.asarray(jnp.tanh(f(p["u"]) @ f(p["W1"]) + f(p["b1"])) @ f(p["W2"]) + f(p["b2"]), dtype=np.float64)
+        else:
+            out = np.tanh(u @ np.asarray(p["W1"], float) + np.asarray(p["b1"], float)) @ np.asarray(p["W2"], float) + np.asarray(p["b2"], float)
         Dx, Dy = p["Dx"], p["Dy"]
         M = out[:, : Dy * Dx].reshape((-1, Dy, Dx))
         b = out[:, Dy * Dx:]
